@@ -81,6 +81,14 @@ class InElastic(_Simu):
         assert value >= 0.0, "dt must be >= 0"
         self.__dt = value
 
+    @_Simu.mesh.setter  # type: ignore [attr-defined]
+    def mesh(self, mesh) -> None:
+        _Simu.mesh.fset(self, mesh)  # type: ignore [attr-defined]
+        if self.mesh is mesh:
+            # the internal variables live on the Gauss points of the mesh they were integrated on
+            self.__z = {}
+            self.__zOld = {}
+
     @property
     def material(self) -> Behavior:
         """The material."""
